@@ -212,34 +212,49 @@ class NetworkGraph(AbstractBaseIR):
                 if not scalar_edges:
                     continue
 
-                delays, spreads, nodes, add_delay = self._collect_delays_from_edges(scalar_edges, dde_approx=dde_approx)
+                # an edge with a spread becomes a gamma kernel (ODE cascade), an edge without one a discrete delay (ring buffer / DDE).
+                # Unless dde_approx turns every delay into a kernel, the two kinds are buffered separately: in a common buffer
+                # the spread-less edges would get a kernel of order 0, i.e. silently lose their delay.
+                def _has_spread(edge):
+                    v = self.edges[edge].get('spread')
+                    return any(v_tmp for v_tmp in (v if type(v) is list else [v]) if v_tmp is not None)
+                if dde_approx:
+                    partitions = [scalar_edges]
+                else:
+                    partitions = [part for part in ([edge for edge in scalar_edges if not _has_spread(edge)],
+                                                    [edge for edge in scalar_edges if _has_spread(edge)]) if part]
 
-                # add synaptic buffer to output variables with delay
-                if add_delay:
-                    # Clear delay fields from edges so _generate_edge_equation ignores them.
-                    # Kept here (not inside _collect_delays_from_edges) so that method is pure.
-                    for s, t, e in scalar_edges:
-                        self.edges[s, t, e]['source_idx'] = []
-                        self.edges[s, t, e]['delay'] = None
+                for part_idx, part in enumerate(partitions):
 
-                    if vectorized:
-                        self._add_edge_buffer(node_name, op_name, var_name, edges=scalar_edges, delays=delays,
-                                              nodes=nodes, spreads=spreads, dde_approx=dde_approx)
-                    else:
-                        # TODO: sort edges into unique delay/spread combinations and only loop over those
-                        if spreads:
-                            for i, (edge, delay, spread, node) in enumerate(zip(scalar_edges, delays, spreads, nodes)):
-                                self._add_edge_buffer(node_name, op_name, var_name, edges=[edge], delays=[delay],
-                                                      nodes=[node], spreads=[spread], dde_approx=dde_approx,
-                                                      buffer_id=f"_out{i}")
+                    part_id = f"_p{part_idx}" if part_idx else ""
+                    delays, spreads, nodes, add_delay = self._collect_delays_from_edges(part, dde_approx=dde_approx)
+
+                    # add synaptic buffer to output variables with delay
+                    if add_delay:
+                        # Clear delay fields from edges so _generate_edge_equation ignores them.
+                        # Kept here (not inside _collect_delays_from_edges) so that method is pure.
+                        for s, t, e in part:
+                            self.edges[s, t, e]['source_idx'] = []
+                            self.edges[s, t, e]['delay'] = None
+
+                        if vectorized:
+                            self._add_edge_buffer(node_name, op_name, var_name, edges=part, delays=delays,
+                                                  nodes=nodes, spreads=spreads, dde_approx=dde_approx, buffer_id=part_id)
                         else:
-                            for i, (edge, delay, node) in enumerate(zip(scalar_edges, delays, nodes)):
-                                if not delay:
-                                    # undelayed edge: keeps reading the source variable itself, through its own source index
-                                    self.edges[edge]['source_idx'] = list(node)
-                                    continue
-                                self._add_edge_buffer(node_name, op_name, var_name, edges=[edge], delays=[delay],
-                                                      nodes=[node], dde_approx=dde_approx, buffer_id=f"_out{i}")
+                            # TODO: sort edges into unique delay/spread combinations and only loop over those
+                            if spreads:
+                                for i, (edge, delay, spread, node) in enumerate(zip(part, delays, spreads, nodes)):
+                                    self._add_edge_buffer(node_name, op_name, var_name, edges=[edge], delays=[delay],
+                                                          nodes=[node], spreads=[spread], dde_approx=dde_approx,
+                                                          buffer_id=f"{part_id}_out{i}")
+                            else:
+                                for i, (edge, delay, node) in enumerate(zip(part, delays, nodes)):
+                                    if not delay:
+                                        # undelayed edge: keeps reading the source variable itself, through its own source index
+                                        self.edges[edge]['source_idx'] = list(node)
+                                        continue
+                                    self._add_edge_buffer(node_name, op_name, var_name, edges=[edge], delays=[delay],
+                                                          nodes=[node], dde_approx=dde_approx, buffer_id=f"{part_id}_out{i}")
 
         # go through nodes again, and collect and process all inputs to each node variable
         ##################################################################################
